@@ -59,6 +59,7 @@ func c04(r *lp.Run) {
 	if ferr != nil {
 		r.Fail(lp.PropFail{Property: "C04", What: "the generator refuses the format-matrix spec", Input: fmtMatrixDoc(), Observed: ferr.Error(), Expected: "generated package"})
 	}
+	codecPkgs := c04CodecAdd(r, r.Rng.Fork(404), mod)
 	bin, err := mod.Build()
 	if err != nil {
 		r.Fail(lp.PropFail{Property: "C02", What: "generated packages do not compile", Input: "schema specs", Observed: err.Error(), Expected: "compiles"})
@@ -75,6 +76,7 @@ func c04(r *lp.Run) {
 	if fmtPkg != nil {
 		c04Formats(r, drv, fmtPkg)
 	}
+	c04Codec(r, r.Rng.Fork(405), drv, codecPkgs)
 	for _, b := range specs {
 		names := make([]string, 0)
 		for name := range b.g.Env() {
